@@ -18,13 +18,21 @@ int main(int argc, char** argv) {
         J g = jparse(line);
         W w;
         w.begin_obj().ks("e", g["k"].s()).key("g").raw(line);
-        if (g["k"].s() == "poly") {
+        if (g["k"].s() == "poly" || g["k"].s() == "far") {
             Polygon* p = mk(g["pts"]);
             int64_t lo = g["lo"].i(), hi = g["hi"].i();
+            // "far": the whole figure, query points included, displaced by an exactly representable
+            // vector of magnitude 2^e + f/8
+            Vec2 sh = {0, 0};
+            if (g["k"].s() == "far") {
+                double m = ldexp(1.0, (int)g["e"].i()) + (double)g["f"].i() / 8.0;
+                sh = Vec2{(double)g["sx"].i() * m, (double)g["sy"].i() * m};
+                for (uint64_t i = 0; i < p->point_array.count; i++) p->point_array[i] += sh;
+            }
             w.key("res").begin_arr();
             for (int64_t x = lo; x <= hi; x++)
                 for (int64_t y = lo; y <= hi; y++)
-                    w.i(p->contain(Vec2{(double)x / 2.0, (double)y / 2.0}) ? 1 : 0);
+                    w.i(p->contain(Vec2{(double)x / 2.0 + sh.x, (double)y / 2.0 + sh.y}) ? 1 : 0);
             w.end_arr();
             // measures in doubled units: twice the area = 8 * real area; perimeter * 2
             bool ok = true;
